@@ -459,7 +459,7 @@ def _emit(run: Any, clause: str, problem: Optional[tuple[str, dict[str, Any]]], 
         run.check(clause, True, case, nontrivial=nontrivial, key=key)
         return
     failing = dict(case)
-    failing["observed"] = problem[1]
+    failing["observed"] = dict(problem[1], clause=clause)
     fid = classify(clause, failing)
     run.check(clause if fid is None else f"{clause} [{fid}]", False, failing, nontrivial=nontrivial,
               detail=problem[0], key=key)
@@ -764,4 +764,9 @@ def replay(case: dict[str, Any]) -> list[str]:
         check_filter_layout(col, plain["hits"])
     else:
         return [f"harness error: unknown case {case!r}"]
+    wanted = _obs(case, "clause")
+    if isinstance(wanted, str):
+        # a case stored from a failure (e.g. the witness of a finding) is judged at the clause it failed at
+        return [text for text in col.failed
+                if text.startswith("harness error") or text.split(": ", 1)[0].split(" [")[0] == wanted]
     return col.failed
